@@ -251,6 +251,26 @@ def JKvs.find : JKvs → Str → Option J
 
 def splitKey : Str := [0x73, 0x70, 0x6C, 0x69, 0x74]  -- "split"
 
+/-- `encoding/json`'s key folding (`foldName`): ASCII letters to upper case, U+017F (long s) to
+`S`, U+212A (Kelvin sign) to `K` -/
+def foldKey : Str → Str
+  | [] => []
+  | 0xC5 :: 0xBF :: r => 0x53 :: foldKey r
+  | 0xE2 :: 0x84 :: 0xAA :: r => 0x4B :: foldKey r
+  | c :: r => (if 0x61 ≤ c && c ≤ 0x7A then c - 0x20 else c) :: foldKey r
+
+/-- does the key select the field `Split … `json:"split"``?  (exact or case-folded match) -/
+def isSplitKey (k : Str) : Bool := foldKey k == [0x53, 0x50, 0x4C, 0x49, 0x54]
+
+/-- the member `json.Unmarshal` into `struct{Split json.RawMessage `json:"split"`}` keeps: members
+are assigned in source order, so the LAST member whose key folds to `split` wins -/
+def JKvs.findSplit : JKvs → Option J
+  | .nil => none
+  | .cons k j r =>
+    match r.findSplit with
+    | some v => some v
+    | none => if isSplitKey k then some j else none
+
 /-- The type at which the operand of a split is converted: an argument split
 over a map is a `map<T>` of the parameter's type `T` (an array operand needs
 no adjustment: `fix` saturates `arrayDim` at 0). -/
@@ -281,7 +301,7 @@ def buildBinding (split : Bool) (t : TypeId) (j : J) : Option Arg :=
   if split then
     match j with
     | .obj kvs =>
-      match kvs.find splitKey with
+      match kvs.findSplit with
       | some v => (convertSplit t v).map .split
       | none => none
     | _ => none
@@ -499,7 +519,7 @@ def canonArg (split : Bool) (j : J) : J :=
   if split then
     match j with
     | .obj kvs =>
-      match kvs.find splitKey with
+      match kvs.findSplit with
       | some v => .obj (.cons splitKey (normJ v) .nil)
       | none => .lit .null
     | _ => .lit .null
